@@ -1633,7 +1633,7 @@ static int read_event_smix(struct context_data *ctx, struct xmp_event *e, int ch
 	RESET_NOTE(NOTE_END);
 
 	if (ins >= mod->ins && ins < mod->ins + smix->ins) {
-		sub = &xxi->sub[0];
+		sub = xxi->sub;		/* NULL for a reserved slot that holds no sample */
 		if (sub == NULL) {
 			return 0;
 		}
